@@ -211,12 +211,33 @@ func (g *Gen) HistoryBulk(size int) []E {
 	} else if g.chance(0.25) { // unsorted window: any selection of the right size is acceptable
 		q = append(q, []interface{}{"limit", g.r.Intn(size + 2)})
 	}
+	rewriteX := false
+	if size >= 1000 {
+		// many pages: prefer operations that rewrite the very field the query filters on
+		q = []interface{}{[]interface{}{"where", []interface{}{"un", []string{"gte", "lte", "eq", "gt"}[g.r.Intn(4)], B("x"), []interface{}{"lit", v}}}}
+		if g.chance(0.3) {
+			q = []interface{}{[]interface{}{"where", []interface{}{"not", []interface{}{"un", "eq", B("x"), []interface{}{"lit", v}}}}}
+		}
+		rewriteX = true
+	}
 	nv := ANum(g.smallN[g.r.Intn(nvals)], "i")
 	big := ANum(g.smallN[nvals-1], "i")
 	small := ANum(g.smallN[0], "i")
 	// audit before the bulk operation fixes the pre-state for TLC
 	evs = append(evs, E{"op": "ListCollections", "audit": true})
-	switch g.r.Intn(9) {
+	if len(idxSet) > 0 && g.chance(0.3) {
+		// dropping (and re-creating) an index over a multi-page collection leaves nothing behind
+		f := idxSet[g.r.Intn(len(idxSet))]
+		evs = append(evs, E{"op": "DropIndex", "c": c, "f": B(f)})
+		if g.chance(0.5) {
+			evs = append(evs, E{"op": "CreateIndex", "c": c, "f": B(f)})
+		}
+	}
+	opk := g.r.Intn(9)
+	if rewriteX {
+		opk = []int{2, 3, 7, 2, 3, 7, 0, 8}[g.r.Intn(8)]
+	}
+	switch opk {
 	case 0:
 		evs = append(evs, E{"op": "Delete", "c": c, "q": q})
 	case 1:
@@ -467,5 +488,40 @@ func (g *Gen) HistoryAlgebra() []E {
 			find([]interface{}{"un", "contains", B("arr"), []interface{}{"list", []interface{}{[]interface{}{"ref", B(other)}}}})
 		}
 	}
+	return evs
+}
+
+// ---------------------------------------------------------------- operations larger than a store's transaction limit (C04)
+
+// HistoryHuge: a batch of about 11 MB whose last document is offending, then the same batch
+// without the offender.  Whatever the store makes of it (bbolt takes it, badger refuses transactions
+// beyond its size limit), a call that returns an error must leave no trace.
+func (g *Gen) HistoryHuge() []E {
+	c := g.colls[0]
+	evs := []E{{"op": "CreateCollection", "c": c}}
+	if g.chance(0.5) {
+		evs = append(evs, E{"op": "CreateIndex", "c": c, "f": B("x")})
+	}
+	evs = append(evs, E{"op": "Insert", "c": c, "docs": []interface{}{AObj("_id", AStr(bulkId(100000)), "x", g.smallNum())}})
+	mk := func(n int, offender string) []interface{} {
+		docs := make([]interface{}, 0)
+		for i := 0; i < n; i++ {
+			docs = append(docs, AObj("_id", AStr(bulkId(i)), "x", ANum(g.smallN[i%len(g.smallN)], "i"), "p", APad(65536)))
+		}
+		switch offender {
+		case "dup":
+			docs = append(docs, AObj("_id", AStr(bulkId(0)), "x", g.smallNum()))
+		case "bad":
+			docs = append(docs, AObj("_id", AStr("not-a-uuid"), "x", g.smallNum()))
+		}
+		return docs
+	}
+	n := 165 + g.r.Intn(20)
+	evs = append(evs, E{"op": "Insert", "c": c, "docs": mk(n, []string{"dup", "bad"}[g.r.Intn(2)])})
+	evs = append(evs, E{"op": "Count", "c": c, "q": []interface{}{}, "audit": true})
+	evs = append(evs, E{"op": "Insert", "c": c, "docs": mk(n, "")})
+	// a bulk update whose last result is invalid
+	evs = append(evs, E{"op": "UpdateFunc", "c": c, "q": []interface{}{[]interface{}{"sort", []interface{}{}}}, "upd": []interface{}{"set", B("_expiresAt"), AStr("soon")}})
+	evs = append(evs, E{"op": "Count", "c": c, "q": []interface{}{}, "audit": true})
 	return evs
 }
